@@ -12,11 +12,11 @@ if ! git -C /repo apply $REV "$PATCH"; then echo "patch does not apply"; exit 3;
 trap 'git -C /repo checkout -q -- . ; git -C /repo clean -fdq' EXIT
 for P in "$@"; do
   T0=$(date +%s)
-  OUT=$(./check "$P" --tier "${TIER:-quick}" 2>/tmp/mutant-$P.err)
+  OUT=$(./check "$P" --tier "${TIER:-quick}" 2>.build/mutant-$P.err)
   RC=$?
   T1=$(date +%s)
   NS=$(echo "$OUT" | grep -c '^VIOLATION')
   echo "MUTANT $(basename $(dirname $PATCH))/$(basename $PATCH) $REV check=$P exit=$RC violations=$NS time=$((T1-T0))s"
-  grep "signature:" /tmp/mutant-$P.err | head -4
-  if [ $RC -eq 2 ]; then echo "$OUT" | grep INCONCLUSIVE | head -3; tail -5 /tmp/mutant-$P.err; fi
+  grep "signature:" .build/mutant-$P.err | head -4
+  if [ $RC -eq 2 ]; then echo "$OUT" | grep INCONCLUSIVE | head -3; tail -5 .build/mutant-$P.err; fi
 done
